@@ -28,7 +28,8 @@ def field_index(prog, struct, name):
 class Programs:
     """event programs of the real functions, extracted once per check run"""
 
-    def __init__(self, prog=None):
+    def __init__(self, prog=None, writer_new_only=False):
+        self.writer_new_only = writer_new_only
         t0 = time.time()
         if prog is None:
             prog, self.mir_wall = load_shm_program()
@@ -42,7 +43,8 @@ class Programs:
         self.rec_size = self.rec['size']
         self.hdr_size = self.hdr['size']
         self.env = SharedEnv(prog, rec_size=self.rec_size)
-        self.setup_reader()
+        if not writer_new_only:
+            self.setup_reader()
         self.setup_writer()
         self.extract_wall = time.time() - t0 - self.mir_wall
 
@@ -161,19 +163,59 @@ class Programs:
                 raise EngineError('writer pointer is not a segment pointer: %r' % (p,))
         self.writer_segsize = self.writer_obj.f[fi('segsize')]
         self.writer_new_ex = ex
+        if self.writer_new_only:
+            return
         # write() over a symbolic record tag
         self.ktag = z3.Int('ktag')
         st = State(); st.mem[(0, 'w')] = self.writer_obj; st.mem[(0, 'rec')] = Rec([self.ktag] * NW)
         ex2 = self.new_exec()
         wr = prog.find1('write', self_ty='ShmWriter')
-        self.write = summarise(ex2, wr, [Ref(0, 'w'), Ref(0, 'rec')], st)
+        self.write = summarise(ex2, wr, [Ref(0, 'w'), Ref(0, 'rec')], st, watch_mem=[(0, 'w')])
         self.write_ex = ex2
+        self.write_fn = wr
+        self.writer_private_state = self._writer_private_state()
         if self.write.head is not None:
             raise EngineError('ShmWrite::write contains a loop')
         for g in self.write.prefix:
             for a in g.alts:
                 if a.kind != 'return':
                     raise EngineError('ShmWrite::write has a non-returning path')
+
+    def _writer_private_state(self):
+        """None when ShmWrite::write is a function of the segment and of the record only; otherwise a description.
+        The bounded scenarios replay the per-call program of write() for every publication, which is only faithful when the
+        writer object carries nothing from one call (or from ShmWriter::new) to the next."""
+        from mirsym.values import same
+
+        def struct_same(a, b):
+            if same(a, b):
+                return True
+            if isinstance(a, Struct) and isinstance(b, Struct) and len(a.f) == len(b.f):
+                return all(struct_same(x, y) for x, y in zip(a.f, b.f))
+            return False
+        for g in self.write.prefix:
+            for a in g.alts:
+                if not struct_same(a.mem.get((0, 'w')), self.writer_obj):
+                    return 'write() modifies the ShmWriter object'
+        # observation variables created while ShmWriter::new ran (loads from the segment) that ended up in the writer object
+        names = set()
+
+        def walk(v):
+            if isinstance(v, Struct):
+                for x in v.f:
+                    walk(x)
+            elif isinstance(v, z3.ExprRef):
+                stack = [v]
+                while stack:
+                    t = stack.pop()
+                    if z3.is_const(t) and t.decl().kind() == z3.Z3_OP_UNINTERPRETED:
+                        names.add(t.decl().name())
+                    stack.extend(t.children())
+        walk(self.writer_obj)
+        bad = [n for n in names if n.startswith('ld_') or n.startswith('rd_') or n.startswith('rw_')]
+        if bad:
+            return 'ShmWriter::new stores a value loaded from the segment (%s) in the writer object' % ', '.join(sorted(bad)[:3])
+        return None
 
     def side(self):
         return list(self.snap_ex.side) + list(self.write_ex.side) + list(self.writer_new_ex.side)
@@ -187,6 +229,9 @@ class Scenario:
     """one bounded program: an initial segment state, a writer history, M reader calls"""
 
     def __init__(self, P, name='s'):
+        if P.writer_private_state:
+            raise EngineError('the writer keeps private state across calls (%s): the bounded seqlock scenarios are built from a per-call '
+                              'program of write() and do not cover such a writer' % P.writer_private_state)
         self.P = P
         self.enc = Enc(name)
         self.enc.add(*P.side())
